@@ -66,6 +66,22 @@ type cand struct {
 }
 
 func (r *Runner) candidates(e *skEntry) ([]cand, *big.Rat) {
+	if e.candCs != nil && e.candVer == e.inVer && len(e.candCs) == len(e.inputs) {
+		return e.candCs, e.candW
+	}
+	cs, W := r.candidatesUncached(e)
+	e.candCs, e.candW, e.candVer = cs, W, e.inVer
+	e.candUnit = true
+	for _, c := range cs {
+		if c.w.Cmp(ratInt(1)) != 0 {
+			e.candUnit = false
+			break
+		}
+	}
+	return cs, W
+}
+
+func (r *Runner) candidatesUncached(e *skEntry) ([]cand, *big.Rat) {
 	m := r.mappingOf(e)
 	minV := m.MinIndexableValue()
 	cs := make([]cand, 0, len(e.inputs))
@@ -165,14 +181,11 @@ func (r *Runner) quantileOracle(e *skEntry, q, v float64, err error) {
 	alpha := m.RelativeAccuracy()
 	cs, W := r.candidates(e)
 	t := new(big.Rat).Mul(ratOf(q), new(big.Rat).Sub(W, ratInt(1)))
-	unit := true
-	for _, c := range cs {
-		if c.w.Cmp(ratInt(1)) != 0 {
-			unit = false
-			break
-		}
-	}
+	unit := e.candUnit
 	one := ratInt(1)
+	fl := new(big.Rat).SetInt(floorRat(t))
+	ce := new(big.Rat).SetInt(ceilRat(t))
+	tPlus, tMinus := new(big.Rat).Add(t, one), new(big.Rat).Sub(t, one)
 	ok := false
 	anyAcceptable := false
 	allKept := true
@@ -180,12 +193,10 @@ func (r *Runner) quantileOracle(e *skEntry, q, v float64, err error) {
 		var acceptable bool
 		if unit {
 			// x_k with k = floor(t) or ceil(t): [c0, c1) = [k, k+1)
-			fl := new(big.Rat).SetInt(floorRat(t))
-			ce := new(big.Rat).SetInt(ceilRat(t))
 			acceptable = c.c0.Cmp(fl) == 0 || c.c0.Cmp(ce) == 0
 		} else {
 			// cumulative interval within one unit of weight of t
-			acceptable = new(big.Rat).Sub(c.c0, one).Cmp(t) <= 0 && t.Cmp(new(big.Rat).Add(c.c1, one)) <= 0
+			acceptable = c.c0.Cmp(tPlus) <= 0 && tMinus.Cmp(c.c1) <= 0
 		}
 		if !acceptable {
 			continue
